@@ -61,6 +61,15 @@ struct adapter : public session_interface_cookie_adapter {
 static vt::out tr;
 static long now_rel=100;
 static void set_now(long r) { now_rel=r; vt::fake_now=vt::clock_base+r; }
+static void set_now_abs(long long t) { now_rel=(long)(t-vt::clock_base); vt::fake_now=(time_t)t; }
+// a 64-bit time as three limbs [a,b,c], t = a*2^48 + b*2^24 + c with 0 <= b,c < 2^24 (TLC integers are 32 bit);
+// numeric order = lexicographic order of the limbs
+static std::vector<long> W(long long t)
+{
+	std::vector<long> r(3);
+	r[0]=(long)(t>>48); r[1]=(long)((t>>24)&0xFFFFFF); r[2]=(long)(t&0xFFFFFF);
+	return r;
+}
 
 // ---- configurations ----------------------------------------------------------------------------
 struct config {
@@ -142,7 +151,7 @@ static bool ref_open(config const &C,std::string const &cipher,std::string &payl
 	}
 	if(plain.size()<sizeof(time_t)) return false;
 	time_t t; memcpy(&t,plain.data(),sizeof(t));
-	dl=(long)(t-vt::clock_base); payload=plain.substr(sizeof(t));
+	dl=(long)t; payload=plain.substr(sizeof(t));      // absolute
 	return true;
 }
 // aes_factory(algo,key): key of exactly cbc+20 bytes is split; otherwise k1 = HMAC(key,"0"), k2 = HMAC(key,"\1")
@@ -268,23 +277,25 @@ static void log_cookie(vt::J &j,std::string const &ck,std::string const &ref=std
 static std::string ref_json(int c,std::string const &cipher)
 {
 	std::string pl; long d=0; bool ok=ref_open(*cfgs[c],cipher,pl,d);
-	return vt::J().b("ok",ok).i("id",ok?pid(pl):0).i("dl",ok?d:0).str();
+	return vt::J().b("ok",ok).i("id",ok?pid(pl):0).a("dl",W(ok?d:0)).str();
 }
-static saved do_save(int c,std::string const &data,long dl,bool with_ref=false)
+static saved do_save_abs(int c,std::string const &data,long long t,bool with_ref=false)
 {
 	adapter ad;
 	session_interface si(*pool,ad);
-	cfgs[c]->sc->save(si,data,vt::clock_base+dl,false,false);
+	cfgs[c]->sc->save(si,data,(time_t)t,false,false);
+	long dl=(long)(t-vt::clock_base);
 	saved s; s.cfg=c; s.id=pid(data); s.dl=dl; s.cookie=temp_cookie(si);
 	b64url::decode(s.cookie.substr(1),s.cipher);
 	bool leak = data.size()>=8 && s.cipher.find(data)!=std::string::npos;
-	vt::J j; j.s("e","Save").i("cfg",c).i("id",s.id).i("dl",dl).i("n",data.size()).b("leak",leak).s("by","save");
+	vt::J j; j.s("e","Save").i("cfg",c).i("id",s.id).a("dl",W(t)).i("n",data.size()).b("leak",leak).s("by","save");
 	if(with_ref) j.raw("ref",ref_json(c,s.cipher));
 	log_cookie(j,s.cookie);
 	tr.line(j.str());
 	exec_saves.push_back(s.cookie);
 	return s;
 }
+static saved do_save(int c,std::string const &data,long dl,bool with_ref=false) { return do_save_abs(c,data,(long long)vt::clock_base+dl,with_ref); }
 // a cookie made by the reference implementation from the same key material (another server of the same cluster)
 static saved do_save_ref(vt::rng &R,int c,std::string const &data,long dl)
 {
@@ -295,7 +306,7 @@ static saved do_save_ref(vt::rng &R,int c,std::string const &data,long dl)
 	s.cipher=ref_seal(C.aes,C.ref_md,C.ref_mac_key,C.ref_cbc_key,plain,R);
 	s.cookie="C"+b64url::encode(s.cipher);
 	bool leak = data.size()>=8 && C.aes && s.cipher.find(data)!=std::string::npos;
-	vt::J j; j.s("e","Save").i("cfg",c).i("id",s.id).i("dl",dl).i("n",data.size()).b("leak",leak).s("by","reference");
+	vt::J j; j.s("e","Save").i("cfg",c).i("id",s.id).a("dl",W(t)).i("n",data.size()).b("leak",leak).s("by","reference");
 	j.raw("ref",ref_json(c,s.cipher));
 	log_cookie(j,s.cookie);
 	j.bytes("cipher",s.cipher);
@@ -312,7 +323,7 @@ static saved do_save_enc(int c,std::string const &data,long dl)
 	s.cipher=cfgs[c]->enc->encrypt(plain);
 	s.cookie="C"+b64url::encode(s.cipher);
 	bool leak = data.size()>=8 && s.cipher.find(data)!=std::string::npos;
-	vt::J j; j.s("e","Save").i("cfg",c).i("id",s.id).i("dl",dl).i("n",data.size()).b("leak",leak);
+	vt::J j; j.s("e","Save").i("cfg",c).i("id",s.id).a("dl",W(t)).i("n",data.size()).b("leak",leak);
 	log_cookie(j,s.cookie);
 	j.bytes("cipher",s.cipher);
 	tr.line(j.str());
@@ -338,7 +349,7 @@ static void do_load(int c,std::string const &ck,std::string const &ref,char cons
 	bool ok;
 	try { ok=(twin?cfgs[c]->twin:cfgs[c]->sc)->load(si,data,to); }
 	catch(std::exception const &e) { tr.line(vt::J().s("e","Died").s("what",e.what()).s("mut",mut).str()); tr.close(); exit(0); }
-	vt::J j; j.s("e","Load").i("cfg",c).b("ok",ok).i("id",ok?pid(data):0).i("dl",ok?(long)(to-vt::clock_base):0).b("cleared",ad.cleared);
+	vt::J j; j.s("e","Load").i("cfg",c).b("ok",ok).i("id",ok?pid(data):0).a("dl",W(ok?(long long)to:0)).b("cleared",ad.cleared);
 	j.i("h",first_diff(ck,ref)).s("mut",mut);
 	{	// verdict of the reference implementation under the reference working keys (crypto only, no expiry)
 		std::string ci,pl; long d; bool rv=false;
@@ -357,10 +368,10 @@ static void do_dec(int c,std::string const &cipher,std::string const &ref,char c
 	long dl=0; int id=0;
 	if(ok) {
 		if(plain.size()<sizeof(time_t)) { id=-1; }
-		else { time_t t; memcpy(&t,plain.data(),sizeof(t)); dl=(long)(t-vt::clock_base); id=pid(plain.substr(sizeof(t))); }
+		else { time_t t; memcpy(&t,plain.data(),sizeof(t)); dl=(long)t; id=pid(plain.substr(sizeof(t))); }
 	}
 	std::string ck="C"+b64url::encode(cipher);
-	vt::J j; j.s("e","Dec").i("cfg",c).b("ok",ok).i("id",id).i("dl",dl).i("h",first_diff(ck,ref)).s("mut",mut);
+	vt::J j; j.s("e","Dec").i("cfg",c).b("ok",ok).i("id",id).a("dl",W(dl)).i("h",first_diff(ck,ref)).s("mut",mut);
 	{ std::string pl; long d; j.b("rv",ref_open(*cfgs[c],cipher,pl,d)); }
 	log_cookie(j,ck,ref);
 	tr.line(j.str());
@@ -393,7 +404,7 @@ static void execution(vt::rng &R,int c,size_t L,bool thorough)
 	set_now(100);
 	{
 		std::vector<int> aes; for(size_t i=0;i<cfgs.size();i++) if(cfgs[i]->aes) aes.push_back(i);
-		tr.line(vt::J().s("e","Reset").i("now",100).a("aes",aes).s("cfg",C.name).i("len",L).str());
+		tr.line(vt::J().s("e","Reset").a("now",W(vt::fake_now)).a("aes",aes).s("cfg",C.name).i("len",L).str());
 	}
 	saved S1=do_save(c,P1,200);
 	saved S2=do_save(c,P2,150);
@@ -511,13 +522,13 @@ static void execution(vt::rng &R,int c,size_t L,bool thorough)
 		if(k%5==0) { std::string raw(R(std::min<size_t>(2*cl,200)+1),'\0'); for(size_t i=0;i<raw.size();i++) raw[i]=(char)R(256); do_dec(c,raw,"","random"); }
 	}
 	// expiry: S2 (150) and S4 (100) and S1 (200) as the clock moves
-	tr.line(vt::J().s("e","Tick").i("d",1).str()); set_now(101);
+	set_now(101); tr.line(vt::J().s("e","Tick").i("d",1).a("now",W(vt::fake_now)).str());
 	do_load(c,S4.cookie,S4.cookie,"expired"); do_load(c,S2.cookie,S2.cookie,"asis");
-	tr.line(vt::J().s("e","Tick").i("d",49).str()); set_now(150);
+	set_now(150); tr.line(vt::J().s("e","Tick").i("d",49).a("now",W(vt::fake_now)).str());
 	do_load(c,S2.cookie,S2.cookie,"asis-boundary");
-	tr.line(vt::J().s("e","Tick").i("d",1).str()); set_now(151);
+	set_now(151); tr.line(vt::J().s("e","Tick").i("d",1).a("now",W(vt::fake_now)).str());
 	do_load(c,S2.cookie,S2.cookie,"expired"); do_load(c,S1.cookie,S1.cookie,"asis");
-	tr.line(vt::J().s("e","Tick").i("d",50).str()); set_now(201);
+	set_now(201); tr.line(vt::J().s("e","Tick").i("d",50).a("now",W(vt::fake_now)).str());
 	do_load(c,S1.cookie,S1.cookie,"expired"); do_load(c,S6.cookie,S6.cookie,"expired");
 }
 
@@ -583,6 +594,65 @@ static void forgeries(vt::rng &R,int c,saved const &S1,std::string const &P1,boo
 	}
 }
 
+// ---- the whole time_t range: deadlines and fake-clock positions far apart, on both sides of 2^31 -----------------
+// Rule unchanged: an authentic cookie loads iff deadline >= now (as 64-bit numbers; TLC compares the limbs).
+struct tval { std::string label; long long v; };
+static void timerange(vt::rng &R,int c,size_t L,bool thorough)
+{
+	config &C=*cfgs[c];
+	static const long long P31=1ll<<31,P32=1ll<<32,Y100=3155760000ll;
+	struct { char const *label; long long v; } clocks[]={
+		{"1970+",(long long)vt::clock_base+100},{"2026",1790000000ll},{"2038-5",P31-5},{"2038-1",P31-1},{"2038",P31},{"2038+7",P31+7},
+		{"2106+3",P32+3},{"2100",4102444800ll+1},{"2^40",(1ll<<40)+12345}
+	};
+	static const struct { char const *label; long long d; } offs[]={
+		{"0",0},{"1",1},{"59",59},{"3600",3600},{"2^31-2",P31-2},{"2^31-1",P31-1},{"2^31",P31},{"2^31+1",P31+1},
+		{"2^32-1",P32-1},{"2^32",P32},{"2^32+1",P32+1},{"2^40",1ll<<40},{"100y",Y100}
+	};
+	static const struct { char const *label; long long v; } absolute[]={
+		{"0",0},{"-1",-1},{"-10^9",-1000000000ll},{"2^31-1",P31-1},{"2^31",P31},{"2^32",P32},{"2100-01-01",4102444800ll},
+		{"2^62",1ll<<62},{"-2^62",-(1ll<<62)},{"int64max",0x7fffffffffffffffll}
+	};
+	size_t nclocks=sizeof(clocks)/sizeof(clocks[0]);
+	for(size_t ci=0;ci<nclocks;ci++) {
+		payload_ids.clear(); exec_saves.clear();
+		std::string P=payload(R,L,1);
+		payload_ids[P]=1;
+		long long N=clocks[ci].v;
+		set_now_abs(N);
+		{
+			std::vector<int> aes; for(size_t i=0;i<cfgs.size();i++) if(cfgs[i]->aes) aes.push_back(i);
+			tr.line(vt::J().s("e","Reset").a("now",W(N)).a("aes",aes).s("cfg",C.name).s("len","timerange").s("clock",clocks[ci].label).i("n",L).str());
+		}
+		std::vector<tval> D;
+		for(size_t k=0;k<sizeof(offs)/sizeof(offs[0]);k++) {
+			tval a; a.label=std::string("now+")+offs[k].label; a.v=N+offs[k].d; D.push_back(a);
+			if(offs[k].d) { tval b; b.label=std::string("now-")+offs[k].label; b.v=N-offs[k].d; D.push_back(b); }
+		}
+		for(size_t k=0;k<sizeof(absolute)/sizeof(absolute[0]);k++) { tval a; a.label=absolute[k].label; a.v=absolute[k].v; D.push_back(a); }
+		std::vector<saved> S;
+		for(size_t k=0;k<D.size();k++) {
+			long rel=(long)(D[k].v-(long long)vt::clock_base);
+			saved sv= k%3==0 ? do_save_enc(c,P,rel) : k%3==1 ? do_save(c,P,rel,true) : do_save_ref(R,c,P,rel);
+			S.push_back(sv);
+			std::string mut="wide:"+D[k].label+"@"+clocks[ci].label;
+			do_load(c,sv.cookie,sv.cookie,mut.c_str());
+			if(k%4==0) do_dec(c,sv.cipher,sv.cookie,mut.c_str());
+		}
+		// the same cookies seen from another clock position (the other side of 2^31 / far away)
+		size_t cj=(ci+4)%nclocks;
+		set_now_abs(clocks[cj].v);
+		tr.line(vt::J().s("e","Tick").i("d",0).a("now",W(clocks[cj].v)).str());
+		for(size_t k=0;k<D.size();k++) {
+			std::string mut="wide:"+D[k].label+"@"+clocks[ci].label+">"+clocks[cj].label;
+			do_load(c,S[k].cookie,S[k].cookie,mut.c_str(),k%2==1);
+		}
+		// one tampered cookie far in the future: still refused
+		{ std::string m=S[0].cookie; m[m.size()/2]^=0x04; do_load(c,m,S[0].cookie,"wide:flip-text"); }
+	}
+	set_now(100);
+}
+
 // ---- key schedule: what save() emits verifies under the reference working keys, and what the reference
 //      implementation seals with them loads in the real code (both directions => the real working keys are the documented ones)
 static void keyschedule(vt::rng &R,int c)
@@ -594,7 +664,7 @@ static void keyschedule(vt::rng &R,int c)
 	set_now(100);
 	{
 		std::vector<int> aes; for(size_t i=0;i<cfgs.size();i++) if(cfgs[i]->aes) aes.push_back(i);
-		tr.line(vt::J().s("e","Reset").i("now",100).a("aes",aes).s("cfg",C.name).s("len","keyschedule").str());
+		tr.line(vt::J().s("e","Reset").a("now",W(vt::fake_now)).a("aes",aes).s("cfg",C.name).s("len","keyschedule").str());
 	}
 	saved A=do_save(c,P1,200,true);
 	saved B=do_save_ref(R,c,P2,180);
@@ -610,7 +680,7 @@ static void keyschedule(vt::rng &R,int c)
 static void refusals()
 {
 	set_now(100);
-	tr.line(vt::J().s("e","Reset").i("now",100).a("aes",std::vector<int>()).s("cfg","refusals").i("len",0).str());
+	tr.line(vt::J().s("e","Reset").a("now",W(vt::fake_now)).a("aes",std::vector<int>()).s("cfg","refusals").i("len",0).str());
 	// keys shorter than 16 bytes
 	for(size_t n=0;n<16;n+=5) {
 		bool refused=false;
@@ -671,9 +741,10 @@ int main(int argc,char **argv)
 	if(thorough) { lens.push_back(7); lens.push_back(8); lens.push_back(31); lens.push_back(32); lens.push_back(65536); }
 	// cost-balanced assignment of (configuration, length) jobs to shards
 	std::vector<std::pair<double,std::pair<size_t,size_t> > > jobs;
-	static const size_t KEYSCHED=(size_t)-1;
+	static const size_t KEYSCHED=(size_t)-1,TIMERANGE=(size_t)-2;
 	for(size_t c=0;c<cfgs.size();c++) {
 		jobs.push_back(std::make_pair(-0.2,std::make_pair(c,KEYSCHED)));
+		jobs.push_back(std::make_pair(-0.5,std::make_pair(c,TIMERANGE)));
 		for(size_t k=0;k<lens.size();k++) {
 			// the additional derived-key configurations: two payload lengths in the quick tier
 			if(!thorough && cfgs[c]->extra && lens[k]!=1 && lens[k]!=16) continue;
@@ -688,8 +759,10 @@ int main(int argc,char **argv)
 		load[best]+=-jobs[j].first;
 		if(best!=shard) continue;
 		size_t c=jobs[j].second.first,k=jobs[j].second.second;
-		vt::rng R(vt::envl("VERIF_SEED",1)*2750159u+(c*64+(k==KEYSCHED?63:k))*13+1);
-		if(k==KEYSCHED) keyschedule(R,c); else execution(R,c,lens[k],thorough);
+		vt::rng R(vt::envl("VERIF_SEED",1)*2750159u+(c*64+(k==KEYSCHED?63:k==TIMERANGE?62:k))*13+1);
+		if(k==KEYSCHED) keyschedule(R,c);
+		else if(k==TIMERANGE) { timerange(R,c,16,thorough); if(thorough) { timerange(R,c,0,thorough); timerange(R,c,100,thorough); } }
+		else execution(R,c,lens[k],thorough);
 	}
 	if(shard==0) refusals();
 	printf("cfgs=%zu loads=%ld accepted=%ld decs=%ld\n",cfgs.size(),n_loads,n_ok,n_dec);
